@@ -33,6 +33,8 @@ pub use leader_state::ClusterMetadata;
 use leader_state::LeaderState;
 use learner_state::LearnerState;
 pub use read_lease::{ReadLease, init_clock, now_ms};
+#[cfg(deventlab_d_engine_verif)]
+pub use read_lease::verif_clock;
 use role_state::RaftRoleState;
 use serde::Deserialize;
 use serde::Deserializer;
